@@ -49,6 +49,13 @@ func (c c07cfg) String() string {
 	return s[1:]
 }
 
+var c07stepNames = map[forkexec.ErrorLocation]string{
+	forkexec.LocClone: "clone", forkexec.LocUnshareUserRead: "unshare_user_read", forkexec.LocSetGroups: "setgroups", forkexec.LocSetGid: "setgid", forkexec.LocSetUid: "setuid",
+	forkexec.LocDup3: "dup3", forkexec.LocIoctl: "ioctl", forkexec.LocMount: "mount", forkexec.LocMountMkdir: "mount(mkdir)", forkexec.LocMountTmpfs: "mount(tmpfs)",
+	forkexec.LocChdir: "chdir", forkexec.LocSetRlimit: "setrlimt", forkexec.LocSeccomp: "seccomp", forkexec.LocExecve: "execve",
+	forkexec.LocSetHostName: "sethostname", forkexec.LocSetDomainName: "setdomainname",
+}
+
 // fault kinds and the launch step (location string) each must be reported at
 var c07faults = []struct {
 	name string
@@ -380,6 +387,10 @@ func c07forkexec(x *mc.X) {
 	if !errors.As(err, &ce) {
 		x.Failf("C07/forkexec/error-not-located/"+f.name, "%s: error %v (%T) does not name a launch step", ctxs, err, err)
 		return
+	}
+	// the error TEXT names the step too (written down here, not taken from the library's own table)
+	if want := c07stepNames[f.loc]; want != "" && !strings.HasPrefix(err.Error(), want) {
+		x.Failf("C07/forkexec/step-not-named-in-the-text/"+f.name, "%s: the error reads %q, expected it to begin with %q", ctxs, err.Error(), want)
 	}
 	if ce.Location != f.loc || ce.Index != f.idx {
 		x.Failf("C07/forkexec/wrong-step/"+f.name, "%s: reported step %v(%d) [%v], expected %v(%d)", ctxs, ce.Location, ce.Index, err, f.loc, f.idx)
